@@ -113,7 +113,7 @@ def _ndarray_from_bytes(data):
 def _bytes_ndarray_to_bytes(x):
   shape = x.shape
   flat = list(x.flatten())
-  if flat and not isinstance(flat[0], bytes):
+  if any(not isinstance(v, bytes) for v in flat):
     raise ValueError('Only ndarrays holding bytes objects can be serialized.')
   tpl = shape, flat
   return msgpack.packb(tpl, use_bin_type=True)
